@@ -122,8 +122,32 @@ extern "C" int copies()
   {
     Xml::Element e; e.type = "e"; e.attributes.append("k", "v");
     Xml::Variant a(e);
-    unsigned op = vf_pick(3);
-    if(op == 0)
+    unsigned op = vf_pick(5);
+    if(op == 3)
+    {
+      // assignment from another handle shares the payload (counted), releasing what the target held before
+      Xml::Variant b, c(String("old"));
+      b = a; c = a;
+      vf_assert(b.isElement() && c.isElement(), "assigned handles hold the element");
+      Xml::Element& mb = b.toElement();        // shared by a, b, c: must clone
+      mb.type = "changed";
+      const Xml::Variant& ca = a; const Xml::Variant& cc = c;
+      vf_assert(ca.toElement().type == "e" && cc.toElement().type == "e", "mutating an assigned handle leaves the others unchanged");
+    }
+    else if(op == 4)
+    {
+      Xml::Variant b(a);
+      Xml::Variant& rb = b;
+      b = rb;                                  // self-assignment keeps the payload
+      a = b;                                   // same payload on both sides
+      const Xml::Variant& ca = a;
+      vf_assert(ca.isElement() && ca.toElement().type == "e", "self / same-payload assignment keeps the value");
+      Xml::Variant n; a = n;                   // null source releases
+      vf_assert(a.isNull(), "assigning a null value makes the target null");
+      const Xml::Variant& cb = b;
+      vf_assert(cb.toElement().type == "e", "the other handle keeps the payload");
+    }
+    else if(op == 0)
     {
       Xml::Variant b(a);                       // shared payload
       Xml::Element& mb = b.toElement();        // must clone
